@@ -461,6 +461,9 @@ type instrStore struct {
 	// calls that started after the context was cancelled
 	lateCalls int64
 	record    bool
+	// repeats counts identical (op, args) calls since the last reset
+	repeats   map[string]int
+	maxRepeat int
 }
 
 func newInstrStore(mgr relationtuple.Manager, trv relationtuple.Traverser) *instrStore {
@@ -470,6 +473,7 @@ func newInstrStore(mgr relationtuple.Manager, trv relationtuple.Traverser) *inst
 func (s *instrStore) reset(plan *faultPlan) {
 	s.mu.Lock()
 	s.seq, s.events, s.plan, s.faulted, s.lateCalls = 0, nil, plan, 0, 0
+	s.repeats, s.maxRepeat = map[string]int{}, 0
 	s.mu.Unlock()
 }
 
@@ -477,6 +481,12 @@ func (s *instrStore) calls() int64 {
 	s.mu.Lock()
 	defer s.mu.Unlock()
 	return s.seq
+}
+
+func (s *instrStore) maxRepeated() int {
+	s.mu.Lock()
+	defer s.mu.Unlock()
+	return s.maxRepeat
 }
 
 func (s *instrStore) inFlight() int64 {
@@ -516,6 +526,13 @@ func (s *instrStore) enter(ctx context.Context, op, arg string) (int64, error) {
 	s.inflight++
 	if s.record {
 		s.events = append(s.events, storeEvent{Seq: k, Op: op, Arg: arg})
+	}
+	if s.repeats != nil {
+		n := s.repeats[op+"|"+arg] + 1
+		s.repeats[op+"|"+arg] = n
+		if n > s.maxRepeat {
+			s.maxRepeat = n
+		}
 	}
 	if ctx.Err() != nil {
 		s.lateCalls++
